@@ -5,7 +5,19 @@ From V Require Import Common.Base C01.Utf C01.Quote C18.Pieces C18.PiecesProofs
   C19.Json C19.JsonSpec C19.JsonProofs C19.Layout C19.LayoutProofs C19.SubstProofs
   C19.Metafile C19.MetafileProofs C19.Doc.
 
-Definition rq_final (pathOf : Z -> Z -> bytes) : Z -> Z -> bytes := fun k i => 34 :: pathOf k i ++ [34].
+Definition rq_final (pathOf : Z -> Z -> bytes) : Z -> Z -> bytes := fun k i => 34 :: escape_final (pathOf k i) ++ [34].
+
+(* a final path: bytes forming well-formed UTF-8 (any characters, including
+   quotation marks, backslashes and control characters) *)
+Definition path_ok (p : bytes) : Prop := bytes_ok p /\ utf8_valid (length p) p = true.
+Definition paths_ok (pathOf : Z -> Z -> bytes) : Z -> Z -> Prop := fun k i => path_ok (pathOf k i).
+Definition path_units (pathOf : Z -> Z -> bytes) : Z -> Z -> list Z := fun k i => units (pathOf k i).
+
+Lemma sf_final pathOf : sf_reads (paths_ok pathOf) (path_units pathOf) (rq_final pathOf).
+Proof.
+  intros k i [Hb Hv]. exists (escape_final (pathOf k i)). split; [reflexivity|].
+  intros F rest HF. apply escape_final_read; try assumption. lia.
+Qed.
 
 (* ---- (c) the JSON piece of an output after path substitution ---- *)
 
@@ -32,9 +44,9 @@ Proof.
   intros Hp Hc. unfold chunk_final, chunk_pre.
   pose proof (clean_refs _ _ _ _ _ Hc) as Hr.
   rewrite <- (flat_frags ascii (key_bytes prefix) _ (fun k i => key_quoted ascii prefix k i Hp) _ _ (le_n _)).
-  destruct (substitute_text prefix nf nc pathOf _ Hr Hc) as (o & Ho & Hs).
+  destruct (substitute_text prefix nf nc (final_path pathOf) _ Hr Hc) as (o & Ho & Hs).
   rewrite Ho, Hs.
-  apply (flat_frags ascii pathOf (rq_final pathOf) (fun k i => eq_refl) _ _ (le_n _)).
+  apply (flat_frags ascii (final_path pathOf) (rq_final pathOf) (fun k i => eq_refl) _ _ (le_n _)).
 Qed.
 
 (* ---- (b) the document as one tree ---- *)
@@ -122,15 +134,15 @@ Qed.
 Lemma metafile_parses mini ascii prefix nf nc pathOf ins outs :
   forallb plain prefix = true ->
   (forall pc, In pc outs -> clean prefix nf nc (pof [] (frags ascii (chunk_lj mini (snd pc))))) ->
-  lj_ok ascii pathOf (doc_lj mini ins outs) ->
-  parse_json (metafile_of mini ascii prefix nf nc pathOf ins outs) = Some (erase pathOf (doc_lj mini ins outs)).
+  lj_ok (paths_ok pathOf) (doc_lj mini ins outs) ->
+  parse_json (metafile_of mini ascii prefix nf nc pathOf ins outs) = Some (erase (path_units pathOf) (doc_lj mini ins outs)).
 Proof.
   intros Hp Hc Hok. unfold metafile_of.
   assert (E : map (fun pc => (fst pc, chunk_final mini ascii prefix nf nc pathOf (snd pc))) outs
             = map (fun pc => (fst pc, render ascii (rq_final pathOf) (chunk_lj mini (snd pc)))) outs).
   { apply map_ext_in. intros pc Hin. rewrite chunk_final_text; [reflexivity|exact Hp|apply Hc; exact Hin]. }
   rewrite E. fold (rq_final pathOf). rewrite metafile_as_tree.
-  apply parse_render_all; [intros; reflexivity|exact Hok|reflexivity].
+  apply (parse_render_all ascii (paths_ok pathOf)); [apply sf_final|exact Hok|reflexivity].
 Qed.
 
 (* ---- (d) the paths written for unique keys are keys of outputs ---- *)
@@ -208,8 +220,9 @@ Definition with_jv (ws : list (bytes * bytes)) : list (list Z * jv) :=
   if is_nil ws then [] else [(ju "with", JObj (map (fun kv => (units (fst kv), JStr (units (snd kv)))) ws))].
 
 Definition iimp_jv (i : iimp) : jv :=
-  JObj ([(ju "path", JStr (units (ii_path i))); (ju "kind", JStr (units (ii_kind i)));
-         (if ii_external i then (ju "external", JLit 0) else (ju "original", JStr (units (ii_original i))))]
+  JObj ([(ju "path", JStr (units (ii_path i))); (ju "kind", JStr (units (ii_kind i)))]
+        ++ (if ii_external i then [(ju "external", JLit 0)]
+            else match ii_original i with Some o => [(ju "original", JStr (units o))] | None => [] end)
         ++ with_jv (ii_with i)).
 
 Definition input_jv (i : input) : jv :=
@@ -223,20 +236,20 @@ Definition doc_jv pathOf (ins : list input) (outs : list (bytes * chunk)) : jv :
         (ju "outputs", JObj (map (fun pc => (units (fst pc), chunk_jv pathOf (snd pc))) (dedup_first [] outs)))].
 
 Lemma erase_with pathOf mini n ws :
-  map (fun m : bytes * ls * bytes * lj => let '(_, k, _, v) := m in (ls_units pathOf k, erase pathOf v)) (with_lj mini n ws)
+  map (fun m : bytes * ls * bytes * lj => let '(_, k, _, v) := m in (ls_units (path_units pathOf) k, erase (path_units pathOf) v)) (with_lj mini n ws)
   = with_jv ws.
 Proof.
   unfold with_lj, with_jv. destruct (is_nil ws); [reflexivity|].
   cbn [map erase ls_units K]. rewrite map_map. reflexivity.
 Qed.
 
-Lemma erase_imp pathOf mini i : erase pathOf (imp_lj mini i) = imp_jv pathOf i.
+Lemma erase_imp pathOf mini i : erase (path_units pathOf) (imp_lj mini i) = imp_jv pathOf i.
 Proof.
   unfold imp_lj, imp_jv. cbn [erase]. rewrite map_app. cbn [map erase ls_units K].
   destruct (i_path i); destruct (i_external i); reflexivity.
 Qed.
 
-Lemma erase_chunk pathOf mini c : erase pathOf (chunk_lj mini c) = chunk_jv pathOf c.
+Lemma erase_chunk pathOf mini c : erase (path_units pathOf) (chunk_lj mini c) = chunk_jv pathOf c.
 Proof.
   unfold chunk_lj, chunk_jv. cbn [erase]. rewrite !map_app. cbn [map erase ls_units K].
   rewrite !map_map. cbn [snd fst].
@@ -245,20 +258,20 @@ Proof.
     cbn [map erase ls_units K ls_of path_of app]; rewrite ?map_map; reflexivity.
 Qed.
 
-Lemma erase_iimp pathOf mini i : erase pathOf (iimp_lj mini i) = iimp_jv i.
+Lemma erase_iimp pathOf mini i : erase (path_units pathOf) (iimp_lj mini i) = iimp_jv i.
 Proof.
-  unfold iimp_lj, iimp_jv. cbn [erase]. rewrite map_app, erase_with. cbn [map erase ls_units K].
-  destruct (ii_external i); reflexivity.
+  unfold iimp_lj, iimp_jv. cbn [erase]. rewrite !map_app, erase_with. cbn [map erase ls_units K].
+  destruct (ii_external i); [reflexivity|]. destruct (ii_original i); reflexivity.
 Qed.
 
-Lemma erase_input pathOf mini i : erase pathOf (input_lj mini i) = input_jv i.
+Lemma erase_input pathOf mini i : erase (path_units pathOf) (input_lj mini i) = input_jv i.
 Proof.
   unfold input_lj, input_jv. cbn [erase]. rewrite !map_app, erase_with. cbn [map erase ls_units K].
   rewrite !map_map. cbn [snd]. rewrite (map_ext _ _ (erase_iimp pathOf mini)).
   destruct (in_format i); reflexivity.
 Qed.
 
-Lemma erase_doc pathOf mini ins outs : erase pathOf (doc_lj mini ins outs) = doc_jv pathOf ins outs.
+Lemma erase_doc pathOf mini ins outs : erase (path_units pathOf) (doc_lj mini ins outs) = doc_jv pathOf ins outs.
 Proof.
   unfold doc_lj, doc_jv. cbn [erase map ls_units K]. rewrite !map_map.
   f_equal. f_equal; [|f_equal].
@@ -269,39 +282,22 @@ Qed.
 Lemma metafile_faithful_all mini ascii prefix nf nc pathOf ins outs :
   forallb plain prefix = true ->
   (forall pc, In pc outs -> clean prefix nf nc (pof [] (frags ascii (chunk_lj mini (snd pc))))) ->
-  lj_ok ascii pathOf (doc_lj mini ins outs) ->
+  lj_ok (paths_ok pathOf) (doc_lj mini ins outs) ->
   parse_json (metafile_of mini ascii prefix nf nc pathOf ins outs) = Some (doc_jv pathOf ins outs).
 Proof.
   intros. rewrite <- (erase_doc pathOf mini). apply metafile_parses; assumption.
-Qed.
-
-(* a final path with a quotation mark is substituted as it is: the text is not JSON *)
-Lemma substitution_refuted_wit :
-  exists mini ascii prefix nf nc pathOf ins outs,
-    forallb plain prefix = true /\
-    (forall pc, In pc outs -> clean prefix nf nc (pof [] (frags ascii (chunk_lj mini (snd pc))))) /\
-    parse_json (metafile_of mini ascii prefix nf nc pathOf ins outs) = None.
-Proof.
-  exists false, true, [80; 81; 82; 83], 0, 2, (fun _ _ => [111; 47; 100; 34; 113; 46; 106; 115]), [],
-    [([111; 47; 97; 46; 106; 115],
-      mkChunk true [mkImp (PRef 2 1) [100] false] [] None None [] false 5)].
-  split; [reflexivity|]. split; [|vm_compute; reflexivity].
-  intros pc [<-|[]]. cbn [snd].
-  match goal with |- clean _ _ _ ?ps => let v := eval vm_compute in ps in change ps with v end.
-  apply clean_cons; try reflexivity; try lia.
-  apply clean_last. reflexivity.
 Qed.
 
 (* (c) for one output: the JSON piece after substitution parses to the description *)
 Lemma chunk_final_parses mini ascii prefix nf nc pathOf c :
   forallb plain prefix = true ->
   clean prefix nf nc (pof [] (frags ascii (chunk_lj mini c))) ->
-  lj_ok ascii pathOf (chunk_lj mini c) ->
+  lj_ok (paths_ok pathOf) (chunk_lj mini c) ->
   parse_json (chunk_final mini ascii prefix nf nc pathOf c) = Some (chunk_jv pathOf c).
 Proof.
   intros Hp Hc Hok. rewrite chunk_final_text by assumption.
   rewrite <- (app_nil_r (render _ _ _)). rewrite <- (erase_chunk pathOf mini).
-  apply parse_render_all; [intros; reflexivity|exact Hok|reflexivity].
+  apply (parse_render_all ascii (paths_ok pathOf)); [apply sf_final|exact Hok|reflexivity].
 Qed.
 
 (* the number written as "bytes" is the one handed to the callback: the length
